@@ -1,7 +1,281 @@
-(* C17 — lemmas.  (first end-to-end version; widened below) *)
-From Coq Require Import List Arith ZArith Bool Lia.
+(* C17 — the monitor of Spec.v accepts every trace of the model, and the
+   individual clauses of the property. *)
+From Coq Require Import List Arith ZArith Bool Lia Sorted.
 From Verif Require Import lib.Wire c17.Model c17.Spec gen.Consts_c17.
+From Verif Require Import c17.Proofs_amap c17.Proofs_ext c17.Proofs_inv c17.Proofs_obs c17.Proofs_sort.
 Import ListNotations.
+Local Open Scope Z_scope.
 
-Lemma cap_is_three_l : maxExternalThinWaistAddrsPerLocalAddr = 3%Z /\ maxObservedAddrsPerListenAddr = 3%Z.
+Lemma cap_is_three_l : maxExternalThinWaistAddrsPerLocalAddr = 3 /\ maxObservedAddrsPerListenAddr = 3.
 Proof. split; reflexivity. Qed.
+
+Lemma the_cap_three : the_cap = 3%nat.
+Proof. reflexivity. Qed.
+
+(* ---- reachability ---------------------------------------------------------- *)
+Fixpoint mon_after (cfg : config) (m : mon) (ops : list op) : mon :=
+  match ops with
+  | [] => m
+  | o :: r => mon_after cfg (mon_step cfg m o) r
+  end.
+
+Lemma Inv_run : forall cfg ops st m, Inv cfg st m -> Inv cfg (run cfg st ops) (mon_after cfg m ops).
+Proof.
+  intros cfg ops. induction ops as [|o r IH]; intros st m H; [exact H|].
+  cbn [run mon_after]. apply IH, Inv_step, H.
+Qed.
+
+(* ---- getTopExternalAddrs ------------------------------------------------------ *)
+Definition cands (e : extmap) (l th : Z) : list (Z * nat) :=
+  map (fun p : Z * obsset => (fst p, length (snd p)))
+      (filter (fun p : Z * obsset => th <=? Z.of_nat (length (snd p))) (getd Z.eqb l e [])).
+
+Lemma top_external_eq : forall k e l th,
+  top_external k e l th = firstn k (sort_sets (cands e l th)).
+Proof. reflexivity. Qed.
+
+Lemma inner_nodup : forall e l, wf_ext e -> NoDup (keys (getd Z.eqb l e [])).
+Proof.
+  intros e l [Hnd Hall]. unfold getd. destruct (get Z.eqb l e) eqn:E; [|constructor].
+  apply (Hall l), (get_In Z.eqb zeqb_spec), E.
+Qed.
+
+Lemma In_inner_oset : forall e l x s, wf_ext e -> In (x, s) (getd Z.eqb l e []) -> oset e l x = s.
+Proof.
+  intros e l x s Hwf H. unfold oset. unfold getd at 1.
+  rewrite (In_get Z.eqb zeqb_spec x s _ (inner_nodup e l Hwf) H). reflexivity.
+Qed.
+
+Lemma cands_In : forall cfg st m l th x k, Inv cfg st m ->
+  In (x, k) (cands (ext st) l th) ->
+  k = nobs cfg (m_cred m) l x /\ th <= Z.of_nat k /\ In x (keys (getd Z.eqb l (ext st) [])).
+Proof.
+  intros cfg st m l th x k HI H. unfold cands in H. apply in_map_iff in H.
+  destruct H as [[x0 s] [Hp Hin]]. cbn [fst snd] in Hp. inversion Hp. subst x0 k. clear Hp.
+  apply filter_In in Hin. destruct Hin as [Hin Hth]. cbn [snd] in Hth. apply Z.leb_le in Hth.
+  rewrite <- (oset_length_nobs cfg st m l x HI).
+  rewrite (In_inner_oset (ext st) l x s (inv_wf _ _ _ HI) Hin).
+  repeat split; [exact Hth|]. change x with (fst (x, s)). apply in_map, Hin.
+Qed.
+
+Lemma cands_complete : forall cfg st m l th y s, Inv cfg st m ->
+  get Z.eqb y (getd Z.eqb l (ext st) []) = Some s -> th <= Z.of_nat (length s) ->
+  In (y, length s) (cands (ext st) l th).
+Proof.
+  intros cfg st m l th y s HI Hg Hth. unfold cands. apply in_map_iff. exists (y, s).
+  split; [reflexivity|]. apply filter_In. split.
+  - apply (get_In Z.eqb zeqb_spec), Hg.
+  - cbn [snd]. apply Z.leb_le, Hth.
+Qed.
+
+Lemma sorted_desc_of_sorted : forall T, StronglySorted sle T -> sorted_desc (map snd T) = true.
+Proof.
+  intros T H. induction H as [|a r Hs IH Hall]; [reflexivity|].
+  destruct r as [|b r']; [reflexivity|]. cbn [map sorted_desc] in *.
+  rewrite IH, andb_true_r. apply Nat.leb_le. apply set_le_snd.
+  rewrite Forall_forall in Hall. apply Hall. left. reflexivity.
+Qed.
+
+Lemma zmem_In : forall x l, zmem x l = true <-> In x l.
+Proof.
+  intros x l. unfold zmem. rewrite existsb_exists. split.
+  - intros [y [H1 H2]]. apply Z.eqb_eq in H2. subst. exact H1.
+  - intros H. exists x. split; [exact H|apply Z.eqb_refl].
+Qed.
+
+Lemma NoDup_app_left : forall {A} (a b : list A), NoDup (a ++ b) -> NoDup a.
+Proof.
+  intros A a b. induction a as [|x a IH]; [constructor|].
+  cbn [app]. intros H. inversion H as [|? ? Hx H']. subst. constructor; [|apply IH, H'].
+  intros Hin. apply Hx. apply in_or_app. left. exact Hin.
+Qed.
+
+(* the clauses of the property for one AddrsFor answer *)
+Lemma addrs_for_props : forall cfg st m l r, Inv cfg st m ->
+  let xs := addrs_for cfg st (Some l, r) in
+  let n := nobs cfg (m_cred m) l in
+  (forall x, In x xs -> thresh cfg <= Z.of_nat (n x)) /\
+  (length xs <= cap cfg)%nat /\
+  sorted_desc (map n xs) = true /\
+  NoDup xs /\
+  (forall y, ~ In y xs -> thresh cfg <= Z.of_nat (n y) ->
+     (forall x, In x xs -> (n y <= n x)%nat) /\
+     (n y = 0%nat \/ length xs = cap cfg)).
+Proof.
+  intros cfg st m l r HI. cbn zeta. unfold addrs_for. cbn [fst].
+  rewrite top_external_eq.
+  set (S := sort_sets (cands (ext st) l (thresh cfg))).
+  set (T := firstn (cap cfg) S).
+  assert (HS : forall x k, In (x, k) S -> k = nobs cfg (m_cred m) l x /\ thresh cfg <= Z.of_nat k
+                                          /\ In x (keys (getd Z.eqb l (ext st) []))).
+  { intros x k H. unfold S in H. apply (proj1 (sort_sets_In _ _)) in H.
+    exact (cands_In cfg st m l (thresh cfg) x k HI H). }
+  assert (HT : forall p, In p T -> In p S) by (intros p; apply firstn_incl).
+  assert (Hsorted : StronglySorted sle S) by apply sort_sets_sorted.
+  assert (Hmap : map (nobs cfg (m_cred m) l) (map fst T) = map snd T).
+  { rewrite map_map. apply map_ext_in. intros [x k] Hp. cbn [fst snd].
+    symmetry. apply (HS x k), HT, Hp. }
+  (* distinct keys: the candidates come from a map with unique keys *)
+  assert (HndS : NoDup (map fst S)).
+  { assert (Hc : NoDup (map fst (cands (ext st) l (thresh cfg)))).
+    { unfold cands. rewrite map_map. cbn [fst].
+      pose proof (inner_nodup (ext st) l (inv_wf _ _ _ HI)) as Hk. unfold keys in Hk.
+      revert Hk. generalize (getd Z.eqb l (ext st) []). intros L Hk.
+      induction L as [|p L IH]; [constructor|]. cbn [filter map] in *.
+      inversion Hk as [|? ? Hn Hk']. subst.
+      destruct (thresh cfg <=? Z.of_nat (length (snd p))); [|apply IH, Hk'].
+      cbn [map]. constructor; [|apply IH, Hk']. intros H. apply Hn.
+      apply in_map_iff in H. destruct H as [q [Hq Hin]]. apply filter_In in Hin.
+      rewrite <- Hq. apply in_map, Hin. }
+    (* insertion keeps the multiset of keys *)
+    assert (Hins : forall b L, NoDup (map fst (b :: L)) -> NoDup (map fst (insert b L))).
+    { intros b L. induction L as [|c L IH]; cbn [insert]; [auto|].
+      destruct (set_le b c); [auto|]. cbn [map]. intros H.
+      inversion H as [|? ? Hb H']. inversion H' as [|? ? Hc' H'']. subst.
+      constructor.
+      - intros Hin. apply in_map_iff in Hin. destruct Hin as [q [Hq Hin]].
+        apply insert_In in Hin. destruct Hin as [->|Hin].
+        + apply Hb. left. symmetry. exact Hq.
+        + apply Hc'. rewrite <- Hq. apply in_map, Hin.
+      - apply IH. cbn [map]. constructor; [|exact H''].
+        intros Hin. apply Hb. right. exact Hin. }
+    unfold S. revert Hc. generalize (cands (ext st) l (thresh cfg)). intros L.
+    induction L as [|b L IH]; [constructor|]. cbn [sort_sets fold_right]. fold (sort_sets L).
+    intros H. apply Hins. cbn [map] in *. inversion H as [|? ? Hb H']. subst.
+    constructor; [|apply IH, H']. intros Hin. apply Hb.
+    apply in_map_iff in Hin. destruct Hin as [q [Hq Hin]]. apply (proj1 (sort_sets_In _ _)) in Hin.
+    rewrite <- Hq. apply in_map, Hin. }
+  assert (Hsplit : S = T ++ skipn (cap cfg) S) by (symmetry; apply firstn_skipn).
+  repeat split.
+  - intros x Hx. apply in_map_iff in Hx. destruct Hx as [[x0 k] [Hx Hp]]. cbn [fst] in Hx. subst x0.
+    destruct (HS x k (HT _ Hp)) as [Hk [Hth _]]. rewrite <- Hk. exact Hth.
+  - rewrite map_length. apply firstn_le_length.
+  - rewrite Hmap. apply sorted_desc_of_sorted, sorted_firstn, Hsorted.
+  - rewrite Hsplit, map_app in HndS. apply NoDup_app_left in HndS. exact HndS.
+  - intros x Hx. apply in_map_iff in Hx. destruct Hx as [[x0 k] [Hx0 Hp]]. cbn [fst] in Hx0. subst x0.
+    rename H into Hnot. rename H0 into Hth.
+    destruct (HS x k (HT _ Hp)) as [Hk _]. rewrite <- Hk.
+    destruct (get Z.eqb y (getd Z.eqb l (ext st) [])) as [s|] eqn:Eg.
+    + assert (Hn : nobs cfg (m_cred m) l y = length s).
+      { rewrite <- (oset_length_nobs cfg st m l y HI). unfold oset, getd at 1. rewrite Eg. reflexivity. }
+      rewrite Hn in *.
+      pose proof (cands_complete cfg st m l (thresh cfg) y s HI Eg Hth) as Hc.
+      apply (proj2 (sort_sets_In _ _)) in Hc. fold S in Hc. rewrite Hsplit in Hc. apply in_app_or in Hc.
+      destruct Hc as [Hc|Hc].
+      * exfalso. apply Hnot. change y with (fst (y, length s)). apply in_map, Hc.
+      * pose proof (sorted_prefix_suffix (cap cfg) S (x, k) (y, length s) Hsorted Hp Hc) as Hle.
+        apply set_le_snd in Hle. exact Hle.
+    + assert (Hn : nobs cfg (m_cred m) l y = 0%nat).
+      { rewrite <- (oset_length_nobs cfg st m l y HI). unfold oset, getd at 1. rewrite Eg. reflexivity. }
+      rewrite Hn. lia.
+  - rename H into Hnot. rename H0 into Hth.
+    destruct (get Z.eqb y (getd Z.eqb l (ext st) [])) as [s|] eqn:Eg.
+    + right.
+      assert (Hn : nobs cfg (m_cred m) l y = length s).
+      { rewrite <- (oset_length_nobs cfg st m l y HI). unfold oset, getd at 1. rewrite Eg. reflexivity. }
+      rewrite Hn in Hth.
+      pose proof (cands_complete cfg st m l (thresh cfg) y s HI Eg Hth) as Hc.
+      apply (proj2 (sort_sets_In _ _)) in Hc. fold S in Hc.
+      rewrite map_length. unfold T.
+      destruct (Nat.le_gt_cases (cap cfg) (length S)) as [Hle|Hgt].
+      * apply firstn_length_le, Hle.
+      * exfalso. apply Hnot. change y with (fst (y, length s)). apply in_map.
+        unfold T. rewrite firstn_all2 by lia. exact Hc.
+    + left. rewrite <- (oset_length_nobs cfg st m l y HI). unfold oset, getd at 1. rewrite Eg. reflexivity.
+Qed.
+
+(* ---- the monitor's checks hold on the model's answers --------------------------- *)
+Lemma check_for_model : forall cfg st m la, Inv cfg st m -> (cap cfg <= 3)%nat ->
+  check_for cfg (m_cred m) la (addrs_for cfg st la) = true.
+Proof.
+  intros cfg st m [[l|] r] HI Hcap; [|reflexivity].
+  destruct (addrs_for_props cfg st m l r HI) as [P1 [P2 [P3 [_ P5]]]].
+  unfold check_for. cbn [fst].
+  set (xs := addrs_for cfg st (Some l, r)) in *.
+  repeat (apply andb_true_intro; split).
+  - apply forallb_forall. intros x Hx. apply Z.leb_le, P1, Hx.
+  - apply Nat.leb_le. lia.
+  - exact P3.
+  - apply forallb_forall. intros y _.
+    destruct (zmem y xs) eqn:Ez; [reflexivity|]. cbn [orb].
+    destruct (thresh cfg <=? Z.of_nat (nobs cfg (m_cred m) l y)) eqn:Et; [|reflexivity].
+    cbn [negb orb]. apply forallb_forall. intros x Hx. apply Nat.leb_le.
+    apply Z.leb_le in Et. refine (proj1 (P5 y _ Et) x Hx).
+    intros Hin. apply zmem_In in Hin. congruence.
+Qed.
+
+Lemma dedup_laddr_incl : forall l seen a, In a (dedup_laddr seen l) -> In a l.
+Proof.
+  induction l as [|b r IH]; intros seen a; cbn [dedup_laddr]; [intros []|].
+  destruct (existsb (laddr_eqb b) seen).
+  - intros H. right. apply (IH seen), H.
+  - intros [H|H]; [left; exact H|right; apply (IH (b :: seen)), H].
+Qed.
+
+Lemma dedup_laddr_length : forall l seen, (length (dedup_laddr seen l) <= length l)%nat.
+Proof.
+  induction l as [|b r IH]; intros seen; cbn [dedup_laddr length]; [lia|].
+  destruct (existsb (laddr_eqb b) seen); cbn [length].
+  - specialize (IH seen). lia.
+  - specialize (IH (b :: seen)). lia.
+Qed.
+
+Lemma flat_map_length_le : forall {A B} (f : A -> list B) k l,
+  (forall a, In a l -> length (f a) <= k)%nat -> (length (flat_map f l) <= k * length l)%nat.
+Proof.
+  intros A B f k l. induction l as [|a r IH]; intros H; cbn [flat_map length]; [lia|].
+  rewrite app_length. specialize (IH (fun b Hb => H b (or_intror Hb))).
+  specialize (H a (or_introl eq_refl)). lia.
+Qed.
+
+Lemma addrs_for_length : forall cfg st m la, Inv cfg st m -> (length (addrs_for cfg st la) <= cap cfg)%nat.
+Proof.
+  intros cfg st m [[l|] r] HI; [|cbn; lia].
+  apply (addrs_for_props cfg st m l r HI).
+Qed.
+
+Lemma check_all_model : forall cfg st m, Inv cfg st m -> (cap cfg <= 3)%nat ->
+  check_all cfg (m_cred m) (addrs_all cfg st) = true.
+Proof.
+  intros cfg st m HI Hcap. unfold check_all, addrs_all. apply andb_true_intro. split.
+  - apply forallb_forall. intros y Hy. apply in_flat_map in Hy. destruct Hy as [la [Hla Hy]].
+    apply in_map_iff in Hy. destruct Hy as [x [Hy Hx]]. subst y. cbn [fst snd].
+    apply dedup_laddr_incl in Hla. apply existsb_exists. exists la. split; [exact Hla|].
+    destruct la as [[l|] r]; cbn [fst snd] in *; [|destruct Hx].
+    rewrite Z.eqb_refl. cbn [andb]. apply Z.leb_le.
+    apply (proj1 (addrs_for_props cfg st m l r HI)), Hx.
+  - apply Nat.leb_le.
+    eapply Nat.le_trans; [apply (flat_map_length_le _ 3)|].
+    + intros la _. rewrite map_length. pose proof (addrs_for_length cfg st m la HI). lia.
+    + pose proof (dedup_laddr_length (listen cfg) []). lia.
+Qed.
+
+Lemma check_fors_model : forall cfg st m qs i, Inv cfg st m -> (cap cfg <= 3)%nat ->
+  check_fors cfg (m_cred m) i qs (map (addrs_for cfg st) qs) = [].
+Proof.
+  intros cfg st m qs. induction qs as [|q r IH]; intros i HI Hcap; [reflexivity|].
+  cbn [map check_fors]. rewrite (check_for_model cfg st m q HI Hcap). apply IH; assumption.
+Qed.
+
+Lemma mon_check_model : forall cfg st m, Inv cfg st m -> (cap cfg <= 3)%nat ->
+  mon_check cfg m (observe cfg st) = [].
+Proof.
+  intros cfg st m HI Hcap. unfold mon_check, observe. cbn [o_for o_all].
+  rewrite (check_fors_model cfg st m (queries cfg) 0 HI Hcap).
+  rewrite (check_all_model cfg st m HI Hcap). reflexivity.
+Qed.
+
+(* THE theorem: the monitor run on the implementation's traces accepts every
+   trace of the model, from every reachable pair of states *)
+Lemma mon_run_model : forall cfg ops st m i, Inv cfg st m -> (cap cfg <= 3)%nat ->
+  mon_run cfg m i (trace cfg st ops) = [].
+Proof.
+  intros cfg ops. induction ops as [|o r IH]; intros st m i HI Hcap; [reflexivity|].
+  cbn [trace mon_run]. pose proof (Inv_step cfg st m o HI) as HI'.
+  rewrite (mon_check_model cfg _ _ HI' Hcap). apply IH; assumption.
+Qed.
+
+Lemma holds_model : forall cfg ops, (cap cfg <= 3)%nat -> holds cfg (trace cfg init_state ops) = true.
+Proof.
+  intros cfg ops Hcap. unfold holds. rewrite (mon_run_model cfg ops _ _ 0 (Inv_init cfg) Hcap). reflexivity.
+Qed.
